@@ -195,6 +195,16 @@ class TRec(Ty):
         return self.sort().accessor(0, list(self.fields).index(f))(t)
 
 
+class TAbs(Ty):
+    """an opaque object type (uninterpreted sort): only contracts of the functions taking it say anything about it"""
+
+    def __init__(self, name):
+        self.name = name
+
+    def sort(self):
+        return z3.DeclareSort('A_' + _mangle(self.name))
+
+
 class V:
     """a symbolic value: static type + one z3 term"""
     __slots__ = ('ty', 't')
@@ -224,7 +234,12 @@ def parse_type(s, aliases=None):
             if nm in al:
                 v = al[nm]
                 return v if isinstance(v, Ty) else parse_type(v, al)
-            return {'int': INT, 'real': REAL, 'float': REAL, 'bool': BOOL, 'str': STR, 'None': NONE}[nm]
+            prim = {'int': INT, 'real': REAL, 'float': REAL, 'bool': BOOL, 'str': STR, 'None': NONE}
+            if nm in prim:
+                return prim[nm]
+            if nm[:1].isupper():
+                return TAbs(nm)   # any other capitalised name: opaque object type
+            raise ValueError('unknown type ' + nm)
         if isinstance(n, _ast.Constant) and n.value is None:
             return NONE
         if isinstance(n, _ast.Subscript):
